@@ -191,7 +191,7 @@ class World:
                 aux.main = None
             self.frame_acts(frame, "exit")
             for aux in self.cond_auxes(frame):
-                if not aux.done:
+                if not aux.done and aux.main is frame:     # only the frame it runs under takes it down
                     self.exit_all(aux)
                     aux.main = None
             if framer.suspender and framer.suspender[0] is frame:
@@ -251,8 +251,7 @@ class World:
                 nears = self.full_outline(framer)
                 if framer.suspender is not None:
                     main = framer.suspender[0]
-                    below = nears[nears.index(main) + 1:]
-                    if far in below:
+                    if main in far.head()[:-1]:    # target strictly below the main frame
                         self.assumed_away = True
                         return True
                 exits, enters, common = self.exen(nears, far)
